@@ -436,7 +436,8 @@ def run(ctx):
     log(f"c36: TLC done at {ctx.elapsed():.0f}s, {len(records)} REPLAY records")
     build_wild()
     corrupt = os.environ.get("VERIF_C36_CORRUPT")  # detection demonstration only: "stack" | "props" | "spec"
-    budget = 400 if ctx.quick else 8000
+    # number of REPLAY records linked by wild and GNU ld (VERIF_C36_BUDGET: time-boxed development runs only)
+    budget = int(os.environ.get("VERIF_C36_BUDGET", "400" if ctx.quick else "8000"))
     chosen = select(records, rng, budget)
     if corrupt == "spec":
         # falsify one prediction of the spec: must be reported as a tool error (spec != GNU ld), never as a violation
